@@ -293,7 +293,7 @@ PROPS["C09"] = dict(
     verus=["c09_order", "c09_list_optimize", "c05_grouping", "c08_shape", "c08_wiring", "c04_partition", "c05_optimizer"],
     labels=["C09.", "C08.from_wire.", "C08.to_wire.", "C08.shape.", "C05.grouping.", "C04.new.tagged", "C05.fusion."] + MASK,
     kani=[],
-    witness=["c09_reload.rs"],
+    witness=["c09_reload.rs", "c08_roundtrip.rs"],
     trusted=["slice::sort_by_key sorts by the key and permutes (R6 lift)", "apply_optimisation (unit c05_grouping) regroups through a HashMap whose iteration order is arbitrary: its contract is order-free (which groups are fused, what is kept)",
              "NetworkFilterList::optimize (unit c09_list_optimize): HashMap::drain = every entry once in some order, Arc::try_unwrap = taken out iff not shared, into_iter().map(Arc::new).collect() = element-wise (R5/R6 lifts); optimizer::optimize enters as an uninterpreted function of the rules handed in",
              "insert_dup keeps buckets sorted by id (Entry API + binary_search_by closure: outside the subset) - NOT under contract",
